@@ -3,6 +3,6 @@
 // the source files the property is anchored in, pinned whole (test modules, comments and layout apart): a change to anything in
 // them that is neither under contract nor pinned by name still makes this unit undecided, which sends the check to the
 // property's bounded sweep of the real code
-//@pinfile file=lrlex/src/lib/lexer.rs sha=448f544bab49b763
+//@pinfile file=lrlex/src/lib/lexer.rs sha=fd89bb00760c980b
 //@pinfile file=lrlex/src/lib/parser.rs sha=ee184a9fe8ea3991
 //@use prelude/tail.rs
